@@ -92,16 +92,30 @@ def sh(cmd, timeout=600, cwd=None, env=None, input=None):
 
 
 class Lock:
-    def __init__(self, path):
-        self.path = path
+    """advisory lock on the shared coq build directory; gives up waiting after `patience` seconds
+    (a runaway build elsewhere must not stall every check) and then proceeds unlocked"""
+
+    def __init__(self, path, patience=240):
+        self.path, self.patience = path, patience
 
     def __enter__(self):
         self.f = open(self.path, "w")
-        fcntl.flock(self.f, fcntl.LOCK_EX)
+        t0 = time.time()
+        self.locked = False
+        while True:
+            try:
+                fcntl.flock(self.f, fcntl.LOCK_EX | fcntl.LOCK_NB)
+                self.locked = True
+                break
+            except OSError:
+                if time.time() - t0 > self.patience:
+                    break
+                time.sleep(0.5)
         return self
 
     def __exit__(self, *a):
-        fcntl.flock(self.f, fcntl.LOCK_UN)
+        if self.locked:
+            fcntl.flock(self.f, fcntl.LOCK_UN)
         self.f.close()
 
 
